@@ -1490,6 +1490,18 @@ int32_t tls13ParseServerHello(ssl_t *ssl,
            SSL_NO_TLS_1_3 to fall back to the <1.3 decode
            code path. */
         psTraceInfo("Unable to negotiate TLS 1.3, trying <1.3\n");
+        if (rc == SSL_ENCODE_RESPONSE && ssl->tls13IncorrectDheKeyShare)
+        {
+            /* HelloRetryRequest: the cipher suite (and thus the transcript
+               hash) is fixed by this message (RFC 8446 4.1.4, 4.4.1). */
+            const sslCipherSpec_t *spec = sslGetCipherSpec(ssl, cipher);
+            if (spec == NULL)
+            {
+                ssl->err = SSL_ALERT_ILLEGAL_PARAMETER;
+                return MATRIXSSL_ERROR;
+            }
+            ssl->cipher = spec;
+        }
         return rc;
     }
 
